@@ -5,6 +5,7 @@
 use super::assoc::*;
 use super::hung::*;
 use super::trk::*;
+use similari::utils::bbox::Universal2DBox;
 use crate::common::*;
 use crate::sched::{run_jobs, Guarded};
 use serde_json::json;
@@ -163,6 +164,21 @@ pub fn run_a(rep: &Report, tier: Tier) {
 
 /// detections of one step of a relative-motion word
 fn frame(word: &[usize], step: usize, family: usize) -> Vec<Det> {
+    if family == 7 {
+        // the approach / cross / separate family turned as a whole by 0.6 rad about the origin: every object keeps
+        // its heading from frame to frame (detection and track are equally oriented), IoU does not change under a
+        // rotation of the plane
+        let (sn, cs) = 0.6f32.sin_cos();
+        return frame(word, step, 1)
+            .into_iter()
+            .map(|d| {
+                let (x, y) = (d.bbox.xc, d.bbox.yc);
+                let mut n = Det { bbox: Universal2DBox::new_with_confidence(cs * x - sn * y, sn * x + cs * y, Some(0.6), d.bbox.aspect, d.bbox.height, d.bbox.confidence), custom_id: d.custom_id, feature: None, quality: None };
+                n.custom_id = d.custom_id;
+                n
+            })
+            .collect();
+    }
     if family == 6 {
         // the approach / cross / separate family in a small unit (normalised image coordinates): boxes 0.002 x 0.004,
         // overlap areas of a few 1e-6 - IoU is a ratio and has no absolute scale
@@ -268,7 +284,7 @@ pub fn run_b(rep: &Report, tier: Tier) {
     let greedy_differs = AtomicU64::new(0);
     let continued = AtomicU64::new(0);
     for cfg in cfgs {
-        for family in 0..7usize {
+        for family in 0..8usize {
             if rep.out_of_time() {
                 rep.cap_hit("wall budget reached in the end-to-end association part");
                 return;
